@@ -415,6 +415,10 @@ type world struct {
 	tp     *drvTransport
 	srv    *server.Server
 	cli    rpc.TunnelClient
+	tp2    *drvTransport    // a second edge node over the same ring store: clients are connected to several and may call any of them
+	srv2   *server.Server
+	stop   context.CancelFunc
+	cli2   rpc.TunnelClient
 	res    *resolver
 	ca     tls.Certificate
 	self   *srvRec
@@ -493,12 +497,23 @@ func newWorld() *world {
 		Tunnel: &protocol.Node{Id: 900001, Address: "tun-a1.example.net:443"}}
 	w.node = &fakeNode{ident: w.self.Chord}
 	w.node.reset()
+	w.res = &resolver{m: map[string]string{}}
+	w.startServers()
+	return w
+}
+
+// startServers (re)creates the two edge nodes over the ring store of w.node: everything a server keeps in memory starts empty
+func (w *world) startServers() {
+	if w.stop != nil {
+		w.stop()
+	}
+	sctx, stop := context.WithCancel(w.ctx)
+	w.stop = stop
 	w.tp = &drvTransport{ident: w.self.Tunnel, accept: make(chan *transport.StreamDelegate, 16)}
 	chordTp := &drvTransport{ident: w.self.Chord, accept: make(chan *transport.StreamDelegate, 1)}
-	w.res = &resolver{m: map[string]string{}}
 	w.srv = server.New(server.Config{
 		Logger:          zap.NewNop(),
-		ParentContext:   ctx,
+		ParentContext:   sctx,
 		Chord:           chord.WrapRetryKV(w.node, 5*time.Millisecond, 3), // as cmd/server wires it
 		TunnelTransport: w.tp,
 		ChordTransport:  chordTp,
@@ -508,10 +523,27 @@ func newWorld() *world {
 		Acme:            acmeZone,
 	})
 	router := transport.NewStreamRouter(zap.NewNop(), nil, w.tp)
-	go router.Accept(ctx)
-	w.srv.AttachRouter(ctx, router)
-	w.cli = rpc.DynamicTunnelClient(rpc.DisablePooling(ctx), w.tp)
-	return w
+	go router.Accept(sctx)
+	w.srv.AttachRouter(sctx, router)
+	w.cli = rpc.DynamicTunnelClient(rpc.DisablePooling(w.ctx), w.tp)
+	// the second edge node (identities of a2; its destination records are written by the histories that need them)
+	w.tp2 = &drvTransport{ident: &protocol.Node{Id: 900002, Address: "tun-a2.example.net:443"}, accept: make(chan *transport.StreamDelegate, 16)}
+	chordTp2 := &drvTransport{ident: &protocol.Node{Id: 2 << 40, Address: "chord-a2.internal:7946"}, accept: make(chan *transport.StreamDelegate, 1)}
+	w.srv2 = server.New(server.Config{
+		Logger:          zap.NewNop(),
+		ParentContext:   sctx,
+		Chord:           chord.WrapRetryKV(w.node, 5*time.Millisecond, 3),
+		TunnelTransport: w.tp2,
+		ChordTransport:  chordTp2,
+		Resolver:        w.res,
+		CertProvider:    &certs{cert: makeServingCert()},
+		Apex:            apexDomain,
+		Acme:            acmeZone,
+	})
+	router2 := transport.NewStreamRouter(zap.NewNop(), nil, w.tp2)
+	go router2.Accept(sctx)
+	w.srv2.AttachRouter(sctx, router2)
+	w.cli2 = rpc.DynamicTunnelClient(rpc.DisablePooling(w.ctx), w.tp2)
 }
 
 // fresh store with the asked server's own destination records published by the server itself
